@@ -21,7 +21,7 @@ ANCHORS = ["State.__eq__", "Lanelet.__eq__", "Obstacle.__eq__", "Obstacle.__hash
            "TrafficSign.__eq__", "Intersection.__eq__"]
 REQUIRED = ["law.reflexive", "law.deepcopy", "law.symmetric", "law.twin", "law.perturbation", "law.hash-total",
             "law.hash-consistent", "defaults-instance", "law.kwargs-order", "law.cross-class-state", "law.optional-subsets", "law.derived-attribute-twin",
-            "coordinates-of-different-magnitude", "law.after-update_initial_state", "law.assembly-twin", "law.moved-after-compared", "law.other-representation", "law.other-representation.array-dtype", "law.inspected-twin", "perturbation.emptied-collection", "law.none-vs-empty-twin", "law.default-instances-share-nothing",
+            "coordinates-of-different-magnitude", "law.after-update_initial_state", "law.assembly-twin", "law.moved-after-compared", "law.other-representation", "law.other-representation.array-dtype", "law.inspected-twin", "perturbation.emptied-collection", "law.none-vs-empty-twin", "perturbation.member-other-than-the-last-changed", "law.default-instances-share-nothing",
             "class.Polygon.large", "class.Lanelet.large"]
 ASSUMPTIONS = ["perturbations are clearly different valid values (never a duplicate; a reordering only for the member lists of shape groups and light cycles, whose order carries meaning)",
                "real perturbations are >= 1e-6, i.e. far above the documented 1e-10 resolution"]
@@ -82,6 +82,13 @@ def p_list_dup_changed(change):
         v = list(v)
         v[-1] = change(g, v[-1])
         return v
+
+    def f0(g, v):
+        # the same change applied to the FIRST member (a difference is a difference wherever it sits in the collection)
+        v = list(v)
+        v[0] = change(g, v[0])
+        return v
+    f.first = f0
     return f
 
 
@@ -907,7 +914,10 @@ def run(ctx):
                     V("equal-but-hash-differs", "parameter %s: the object built with None equals the one built with an "
                       "empty collection, their hashes differ" % p_, "none-vs-empty:" + p_)
         for p, fns in sorted(perts_all.items()):
+            fns = [f_ for fn in fns for f_ in ([fn, fn.first] if hasattr(fn, "first") else [fn])]
             for j, fn in enumerate(fns):
+                if fn.__name__ == "f0" and isinstance(kw.get(p), (list, tuple)) and len(kw[p]) > 1:
+                    ctx.feature("perturbation.member-other-than-the-last-changed")
                 y = safe(lambda: build(pert=(p, fn), defaults=use_defaults)[0])
                 if y[0] == "exc":
                     ctx.counter("perturbation-not-constructible")
